@@ -43,6 +43,18 @@ func (e *SrcErr) Src() string { return strings.TrimSuffix(strings.TrimPrefix(e.M
 // ErrUserOk is what the harness's WithAcceptable function accepts.
 var ErrUserOk = errors.New("c14 user-acceptable")
 
+// bodies also return the standard sentinels themselves (`return sqlx.ErrNotFound`)
+var rawSentinels = map[error]string{sql.ErrNoRows: "body.norows", sql.ErrTxDone: "body.txdone"}
+
+func rawName(e error) string {
+	for s, name := range rawSentinels {
+		if e == s { // different dynamic types compare unequal without hashing
+			return name
+		}
+	}
+	return ""
+}
+
 var markerRe = regexp.MustCompile(`<c14:([a-z0-9.]+)>`)
 
 // Classify renders an error as `is:<chain>/says:<mentioned only>`; extra lets the package harness look
@@ -62,6 +74,11 @@ func ClassifyT(err error, extra func(error) (string, error, bool), texts map[str
 		if se, ok := e.(*SrcErr); ok {
 			is = append(is, se.Src())
 			seen[se.Src()] = true
+			break
+		}
+		if name := rawName(e); name != "" {
+			is = append(is, name)
+			seen[name] = true
 			break
 		}
 		if extra != nil {
@@ -90,6 +107,12 @@ func ClassifyT(err error, extra func(error) (string, error, bool), texts map[str
 	if strings.Contains(msg, "PanicNilError") && !seen["panic"] {
 		seen["panic"] = true
 		says = append(says, "panic")
+	}
+	for e, name := range rawSentinels {
+		if strings.Contains(msg, e.Error()) && !seen[name] {
+			seen[name] = true
+			says = append(says, name)
+		}
 	}
 	for sub, name := range texts {
 		if strings.Contains(msg, sub) && !seen[name] {
@@ -399,7 +422,15 @@ func kv(op []string) map[string]string {
 	return m
 }
 
-func DefaultBodyErr(cls string) error {
+func DefaultBodyErr(cls string, raw bool) error {
+	if raw {
+		switch cls {
+		case "norows":
+			return sql.ErrNoRows
+		case "txdone":
+			return sql.ErrTxDone
+		}
+	}
 	switch cls {
 	case "plain":
 		return NewSrcErr("body.plain", nil)
@@ -441,7 +472,8 @@ func RunOp(op []string, h Hooks) string {
 			endErr = h.BodyErr(cls)
 		}
 		if endErr == nil {
-			endErr = DefaultBodyErr(cls)
+			// bodies of even length return the standard sentinel itself, the others a value that answers errors.Is
+			endErr = DefaultBodyErr(cls, len(stmts)%2 == 0)
 		}
 		if endErr == nil {
 			return "unsupported-class " + cls
